@@ -40,3 +40,8 @@
   }                                       \
   }                                       \
   }
+
+#ifdef BBLANCHON_ARDUINOJSON_VERIF
+// verification hook: lets an external inspector read the internal state
+struct ArduinoJsonVerifInspector;
+#endif
